@@ -25,6 +25,10 @@ CORPUS = {
                        "res /a/{ 'id int }?{ 'q str } on get, put, post, patch, delete, options, head : <media=\"x/y\", headers={ 'h str }, status=200, @r> -> <status=4XX, {}> :: <>;\n",
     "unterminated": "let a = \"abc",
     "number-too-big": "let a = 99999999999999999999999;\nres / on get -> <{}>;\n",
+    "byte-order-mark": "\ufefflet name = str;\nres / on get -> <name>;\n",
+    "leading-and-trailing-space": "\n\n  \tlet a = num;\nres / on get -> <a>;\n\n  ",
+    "trailing-garbage": "let a = num;\nres / on get -> <a>;\n\u00a0\u2028§",
+    "nul-and-controls": "let a\x00 = num;\x0b\nres / on get -> <a>;\x7f\n",
 }
 
 
@@ -39,13 +43,19 @@ def run_corpus(tag="spans"):
         rc, out, t = run([drv], stdin=text, timeout=60, mem_gb=4, extra_env={"PARSEDRV_MEMO_ONLY": "1"})
         r = c12.parse_out(out)
         tk, mm = r.get("tokens", {}), r.get("memo", {})
-        detail[name] = {"rc": rc, "tokens": tk.get("n"), "tiling": tk.get("tiling"), "end": tk.get("end"), "len": tk.get("len"),
+        detail[name] = {"rc": rc, "tokens": tk.get("n"), "tiling": tk.get("tiling"), "end": tk.get("end"), "len": tk.get("len"), "gaps_ok": tk.get("gaps_ok"), "slices": tk.get("slices"),
                         "leaves_ok": mm.get("leaves_ok"), "spans_ok": mm.get("spans_ok"), "errs": mm.get("errs")}
         if rc != 0 or not tk:
             mism.append("%s: parser driver died (rc=%s)" % (name, rc))
             continue
         if tk.get("tiling") != "ok":
             mism.append("%s: token spans do not ascend inside the text (%s)" % (name, out.split("\n")[0][:100]))
+        if tk.get("gaps_ok") == "false":
+            mism.append("%s: tokens do not tile the text: a gap between tokens (or before the first / after the last) is not a reported lexical error" % name)
+        if tk.get("errs_in_text") == "false":
+            mism.append("%s: a lexical error span leaves the text or is off a character boundary" % name)
+        if tk.get("slices", "ok") != "ok":
+            mism.append("%s: a token's text is not the source slice of its span (%s)" % (name, tk.get("slices")[:120]))
         if mm.get("leaves_ok") == "false":
             mism.append("%s: a leaf span is out of order, outside the text or off a character boundary" % name)
         if mm.get("spans_ok") == "false":
@@ -127,6 +137,26 @@ def check():
             structural("tokenize: an error token is reported at the lexer's own range", good)
         # an out-of-range number literal (fixed defect) is an error path too
     structural("tokenize: every token kind is stored with the lexer's own range, and its text is the slice of that range", kinds_ok and n_ok >= 10)
+    # ... and those ranges are offsets into the caller's text: the lexer runs over the `input` argument itself
+    # (not a trimmed / normalised copy) and token texts are sliced from that same argument
+    lex_ok = idx_ok = True
+    n_lex = 0
+    for p in outs:
+        lx = [e for e in p.calls() if e[1].endswith("Logos::lexer") or e[1].endswith("Lexer::new")]
+        if p.kind in ("backedge", "return") and len(lx) != 1:
+            lex_ok = False
+        for e in lx:
+            n_lex += 1
+            if e[2][0] != ("sym", "input"):
+                lex_ok = False
+        sp = [e for e in p.calls() if e[1] == "Lexer::spanned"]
+        if lx and (len(sp) != 1 or sp[0][2][0] != lx[0][3]):
+            lex_ok = False
+        for e in p.calls():
+            if e[1].endswith("Index::index") and e[2][0] != ("sym", "input"):
+                idx_ok = False
+    structural("tokenize: the lexer runs over the caller's text itself, so its ranges are offsets into that text", lex_ok and n_lex > 0)
+    structural("tokenize: token texts are sliced from the caller's text itself", idx_ok)
     if n_ok == 0 or n_err == 0:
         o.inconc("tokenize: no token / no error iteration found (%d/%d)" % (n_ok, n_err))
     o.extra["tokenize_paths"] = {"token": n_ok, "error": n_err}
